@@ -127,22 +127,26 @@ class Check:
         self.inconclusive: typing.List[str] = []
         self.counters: typing.Dict[str, int] = {}
         self.known = [k for k in load_known() if k.get("property") == pid]
+        import threading
+        self._lock = threading.RLock()   # checks may report from several harness threads
 
     # ---- bookkeeping -------------------------------------------------------------
     def subrng(self, *tag) -> random.Random:
         return random.Random("%s/%s/%d/%s" % (self.pid, self.tier, self.seed, "/".join(map(str, tag))))
 
     def count(self, name: str, n: int = 1) -> None:
-        self.counters[name] = self.counters.get(name, 0) + n
+        with self._lock:
+            self.counters[name] = self.counters.get(name, 0) + n
 
     def case(self, signature: typing.Any = None, sample: typing.Any = None) -> None:
         """One evaluated case; `signature` (hashable) identifies distinct non-trivial
         cases (None = trivial, not counted)."""
-        self.evaluations += 1
-        if signature is not None:
-            self.signatures.add(signature)
-        if sample is not None and len(self.samples) < 8:
-            self.samples.append(jsonable(sample))
+        with self._lock:
+            self.evaluations += 1
+            if signature is not None:
+                self.signatures.add(signature)
+            if sample is not None and len(self.samples) < 8:
+                self.samples.append(jsonable(sample))
 
     def add_sample(self, sample: typing.Any, limit: int = 8) -> None:
         if len(self.samples) < limit:
@@ -150,10 +154,11 @@ class Check:
 
     def witness(self, key: str, detail: typing.Any) -> None:
         """Record a violation. `key` names the mechanism (call site / input class)."""
-        lst = self.witnesses.setdefault(key, [])
-        if len(lst) < 5:
-            lst.append(jsonable(detail))
-        self.count("witness:" + key)
+        with self._lock:
+            lst = self.witnesses.setdefault(key, [])
+            if len(lst) < 5:
+                lst.append(jsonable(detail))
+            self.count("witness:" + key)
 
     def note_inconclusive(self, reason: str) -> None:
         if reason not in self.inconclusive:
